@@ -246,6 +246,9 @@ func c14Scenarios() []c14Scenario {
 		mkPreempt("S4-preemption-release-rest"),
 		mkPreempt5("S13-multi-victim-preemption-release"),
 		mkPreemptPH("S14-placeholder-victims-vs-timeout"),
+		mkMaxApps("S15-maxapps-restart-vs-schedule"),
+		mkLifecycle("S16-completing-timer-vs-new-ask"),
+		mkUGMReload("S17-limits-reload-vs-schedule"),
 		mk("S11-rejected-application-rest", setup, o("APP_ADD", "bad"), o("REST"), o("SCHEDULE")),
 		mk("S12-reload-dynamic-queue-cleanup", setup, []world.Op{{K: "CONFIG", N: 1}}, o("APP_ADD", "app3"), o("CLEAN_QUEUES")),
 	}
@@ -271,6 +274,28 @@ func mkPreempt5(name string) c14Scenario {
 	s := scnPreemptG5("c14-" + name)
 	s.Prefix = append(s.Prefix, op("ASK", "a2"))
 	return c14Scenario{Name: name, Scn: s, Threads: [][]world.Op{{op("SCHEDULE")}, {op("RELEASE", "b3")}, {op("RELEASE", "b1")}}}
+}
+
+// max applications: the scheduling cycle starts a waiting application || the Completing one is restarted by a new ask ||
+// its completing timer fires
+func mkMaxApps(name string) c14Scenario {
+	s := scnMaxAppsRestart("c14-" + name)
+	s.Prefix = []world.Op{op("NODE_ADD", "n1"), op("APP_ADD", "app1"), op("ASK", "a1"), op("SCHEDULE"), op("RELEASE", "a1"), op("APP_ADD", "app2"), op("ASK", "b1")}
+	return c14Scenario{Name: name, Scn: s, Threads: [][]world.Op{{op("SCHEDULE")}, {op("ASK", "a2")}, {op("TIMER_STATE", "app1")}}}
+}
+
+// life cycle: completing timer || new ask for the same application || REST reads
+func mkLifecycle(name string) c14Scenario {
+	s := scnLifecycleLate("c14-" + name)
+	s.Prefix = append(s.Prefix, op("RELEASE", "a1"))
+	return c14Scenario{Name: name, Scn: s, Threads: [][]world.Op{{op("TIMER_STATE", "app1")}, {op("ASK", "a2")}, {op("REST")}}}
+}
+
+// user and group limits: scheduling cycle || reload to a document with other limits || release
+func mkUGMReload(name string) c14Scenario {
+	s := scnUGM("c14-"+name, []string{c05Layouts[2], c05Layouts[8]}, nil,
+		[]world.Op{op("NODE_ADD", "n1"), op("APP_ADD", "app1"), op("ASK", "a1"), op("SCHEDULE"), op("APP_ADD", "app3"), op("ASK", "c1"), op("ASK", "a2")})
+	return c14Scenario{Name: name, Scn: s, Threads: [][]world.Op{{op("SCHEDULE")}, {{K: "CONFIG", N: 1}}, {op("RELEASE", "a1")}}}
 }
 
 // a preemption whose victims are placeholders || the placeholder timeout of their application || REST reads
@@ -406,6 +431,7 @@ func c14Exec(sc c14Scenario, prefix []int) (*ilv.Result, string, []mc.Violation,
 		})
 		names = append(names, fmt.Sprintf("T%d:%s", i, strings.Join(nm, "+")))
 	}
+	preSnap := w.Snapshot()
 	t3 := time.Now()
 	nWorld := runtime.NumGoroutine() // this goroutine, the process baseline and what the world keeps running
 	res := ilv.Run(bodies, names, prefix, 20*time.Second)
@@ -426,6 +452,29 @@ func c14Exec(sc c14Scenario, prefix []int) (*ilv.Result, string, []mc.Violation,
 		}
 	}
 	outbound := w.Rec.Drain()
+	for _, ops := range sc.Threads {
+		for _, o := range ops {
+			if o.K == "CONFIG" {
+				w.Model.Config = o.N // the documents of the scenarios are valid: the reload is accepted
+			}
+		}
+	}
+	// what the bodies submitted and the core still holds is something the shim knows of (the terminal rule of C03
+	// "nothing the shim knows of is left => every ledger is zero" must not fire for it)
+	if pc := w.CC.GetPartition(world.PartitionName); pc != nil {
+		for _, ops := range sc.Threads {
+			for _, o := range ops {
+				if o.K != "ASK" && o.K != "ASK_BOUND" {
+					continue
+				}
+				if spec := sc.Scn.Ask(o.A); spec != nil && w.Model.Keys[o.A] == nil {
+					if app := pc.GetApplication(spec.App); app != nil && app.GetAllocationAsk(o.A) != nil {
+						w.Model.Keys[o.A] = &world.KeyState{App: spec.App, State: "ask", Ph: spec.Placeholder}
+					}
+				}
+			}
+		}
+	}
 	final := w.Snapshot()
 	st := &world.Step{Op: world.Op{K: "CONCURRENT"}}
 	var viol []mc.Violation
@@ -434,6 +483,13 @@ func c14Exec(sc c14Scenario, prefix []int) (*ilv.Result, string, []mc.Violation,
 		for _, x := range m.Step(sc.Scn, final, st, final, counts) {
 			viol = append(viol, v("C14", "final-state-"+x.Prop+"-"+x.Rule, sc.Name, "after the concurrent run of %v: %s", names, x.Detail))
 		}
+	}
+	// life cycle (C10) over the whole concurrent run: every logged transition is a documented one, what ends up Completed
+	// has no work, terminated applications left the queue. The update messages are not judged here (two goroutines may
+	// hand theirs to the shim in either order).
+	stC10 := &world.Step{Op: world.Op{K: "CONCURRENT"}}
+	for _, x := range monC10().Step(sc.Scn, preSnap, stC10, final, counts) {
+		viol = append(viol, v("C14", "final-state-"+x.Prop+"-"+x.Rule, sc.Name, "after the concurrent run of %v: %s", names, x.Detail))
 	}
 	// every allocation that ends up marked for preemption was announced to the shim (C07: "announced exactly once")
 	announced := map[string]int{}
@@ -474,7 +530,7 @@ func c14Shard(tier string, shard, n int) *CustomResult {
 func c14ShardSel(tier string, shard, n int, sel func(name string) bool) *CustomResult {
 	run := &c14Run{outcomes: map[string]bool{}, fpSeen: map[string]int{}, complete: true, perScenario: map[string]int{}}
 	bound := 1
-	budget := 160 * time.Second
+	budget := 300 * time.Second
 	if tier == "thorough" {
 		bound = 2
 		budget = 12 * time.Minute
